@@ -162,7 +162,7 @@ CLAIMED = {
             "The model (parametrisation with chord lengths as inputs, averaged knot vectors, collocation matrix, curve and two-pass surface interpolation, least-squares curve approximation via the normal equations) "
             "is tied to fitting.interpolate_curve / interpolate_surface / approximate_curve by exact correspondence (the sqrt doubles are recomputed by the harness and passed as exact values); the same data is also fitted twice in one process with different settings. approximate_surface is modelled (approximateSurface / lsqPass, op fit.asurf) and tied by exact correspondence; its corner control points and evaluated corners equal the corner data (unconditional for positive chord lengths, whenever the solver passes return); both passes solve their normal equations and minimise the squared residual of their line; the four boundary polygons are least-squares fits of the boundary data lines (oracle).",
             "Hypothesis, not proved: the collocation matrix / N^T N have non-zero Doolittle pivots (Schoenberg-Whitney; the harness checks lu_solve returns on every generated data set). The minimised sum runs over the interior data points (objective of Eq. 9.63); "
-            "the version for the EVALUATED curve (approximateCurve_least_squares, using C03's basis_function_one = Cox-de Boor) needs positive chord lengths; the interpolation knot vector is non-decreasing under invp*p*u_(n-2) <= 1 (invp is the double 1.0/p). approximate_surface: no least-squares statement for the surface as a whole (A9.7 does not have that property); approximate_curve / approximate_surface raise IndexError in matrix_multiply when a direction has only 2 control points (model guarded: ERR for nc < 3 in the surface op; generators ask for >= 3)."),
+            "the version for the EVALUATED curve (approximateCurve_least_squares, using C03's basis_function_one = Cox-de Boor) needs positive chord lengths; the interpolation knot vector is non-decreasing under invp*p*u_(n-2) <= 1 (invp is the double 1.0/p). approximate_surface: no least-squares statement for the surface as a whole (A9.7 does not have that property); approximate_curve / approximate_surface raise IndexError when a direction has only 2 control points: recorded finding F-11a (model guarded: ERR for nc < 3)."),
     'C14': ("7/C14",
             "Lean theorems (43) over a token-level model (numbers are abstract tokens) of the smesh, vmesh (repaired), txt 1-D/2-D and csv files and of the dict form behind JSON (trims, delta, sense flags, containers): "
             "import o export = identity up to rational form (unit weights) and normalised knot vectors for every degree, size triple, net and container length; documented row/column order; END TO END: evaluate_single (library span search + A3.1 / A3.5 / volume evaluation + weight division) of the REIMPORTED shape at the normalised parameter = the exported shape's point, rational or not, "
